@@ -150,6 +150,16 @@ func (g *vwGen) events() []*historypb.HistoryEvent {
 	for i := 0; i < n; i++ {
 		evs = append(evs, g.event(allSkippable))
 	}
+	if allSkippable && g.rng.chance(1, 2) {
+		// a batch that needs no namespace translation can still carry search-attribute keys
+		fields := map[string]*commonpb.Payload{}
+		for k := 0; k < 1+g.rng.below(2); k++ {
+			fields[g.rng.pick(vwKeyPool)] = &commonpb.Payload{Data: []byte(g.rng.pick(vwOtherPool))}
+		}
+		evs = append(evs, &historypb.HistoryEvent{EventId: int64(g.rng.below(1000)), EventType: enumspb.EVENT_TYPE_UPSERT_WORKFLOW_SEARCH_ATTRIBUTES,
+			Attributes: &historypb.HistoryEvent_UpsertWorkflowSearchAttributesEventAttributes{UpsertWorkflowSearchAttributesEventAttributes: &historypb.UpsertWorkflowSearchAttributesEventAttributes{
+				SearchAttributes: &commonpb.SearchAttributes{IndexedFields: fields}}}})
+	}
 	return evs
 }
 
@@ -584,6 +594,9 @@ var vwMappings = []struct {
 	{"chain", map[string]string{"chain-a": "chain-b", "chain-b": "chain-c", "orig": "orig.cloud"}, map[string]string{"KeyX": "KeyY", "KeyY": "KeyZ"}},
 	{"swap", map[string]string{"chain-a": "chain-b", "chain-b": "chain-a"}, map[string]string{"CustomA": "CustomB", "CustomB": "CustomA"}},
 	{"none-matching", map[string]string{"absent": "absent2"}, map[string]string{"Absent": "Absent2"}},
+	// an entry that keeps its name next to entries that rename (both are legal in a one-to-one mapping)
+	{"identity", map[string]string{"other-ns": "other-ns", "orig": "orig.cloud", "orig-x": "orig-x", "ori": "ori", "chain-a": "chain-a", "orig2": "renamed2"},
+		map[string]string{"Other": "Other", "CustomA": "CustomA_remote", "KeyY": "KeyY", "KeyX": "KeyX_r"}},
 }
 
 func vwInverse(m map[string]string) map[string]string {
@@ -675,6 +688,48 @@ func TestVerifWalker(t *testing.T) {
 					stats["sa_matched"]++
 				}
 			}
+			if (mode == "icpt") && root.isReq && !strings.Contains(root.method, "SearchAttributes") {
+				// ---- the whole TranslationInterceptor (method filter + both translators, request and response) ----
+				var respRoot vwRoot
+				for _, r2 := range roots {
+					if r2.method == root.method && !r2.isReq {
+						respRoot = r2
+					}
+				}
+				resp := vwNew(respRoot.full)
+				g2 := &vwGen{rng: rng, budget: 300, jsonEnc: true}
+				g2.fill(resp.ProtoReflect(), 3)
+				icpt := NewTranslationInterceptor(logger, []Translator{
+					NewNamespaceNameTranslator(logger, mp.ns, vwInverse(mp.ns)),
+					NewSearchAttributeTranslator(logger, map[string]map[string]string{"ns-id": mp.sa}, map[string]map[string]string{"ns-id": vwInverse(mp.sa)}),
+				})
+				realReq, realResp := proto.Clone(msg), proto.Clone(resp)
+				var seenReq proto.Message
+				out, err := icpt.Intercept(context.Background(), realReq, &grpc.UnaryServerInfo{FullMethod: root.method},
+					func(ctx context.Context, req any) (any, error) { seenReq = proto.Clone(req.(proto.Message)); return realResp, nil })
+				isWorkflow := strings.HasPrefix(root.method, "/temporal.api.workflowservice.v1.WorkflowService/")
+				refReq, refResp := proto.Clone(msg), proto.Clone(resp)
+				rq := &vwRef{ns: mp.ns}
+				rs := &vwRef{ns: vwInverse(mp.ns)}
+				if !isWorkflow {
+					rq.sa, rs.sa = mp.sa, vwInverse(mp.sa)
+				}
+				rq.walk(refReq.ProtoReflect())
+				rs.walk(refResp.ProtoReflect())
+				stats["icpt_calls"]++
+				if isWorkflow {
+					stats["icpt_workflow"]++
+				}
+				if err != nil || out == nil || seenReq == nil {
+					fmt.Fprintf(w, "ICPT %s %s ERROR %v\n", id, mp.name, err)
+				} else if !rq.collision && !rs.collision {
+					if d := vwDiff(seenReq, refReq); d != "" {
+						fmt.Fprintf(w, "ICPT %s %s REQ %s DIFF %s\n", id, mp.name, root.method, d)
+					} else if d := vwDiff(out.(proto.Message), refResp); d != "" {
+						fmt.Fprintf(w, "ICPT %s %s RESP %s DIFF %s\n", id, mp.name, root.method, d)
+					}
+				}
+			}
 			if (mode == "" || mode == "all" || mode == "acl") && root.isReq {
 				// ---- namespace access control (C16) ----
 				for _, allowedList := range [][]string{{"orig", "other-ns", "chain-a", "chain-b", "chain-c", "orig2", "orig.cloud", "orig-x", "ori"}, {"orig"}, {"orig", "orig2"}, {}} {
@@ -710,6 +765,9 @@ func TestVerifWalker(t *testing.T) {
 					}
 					// through the interceptor (unary): handler reached iff allowed (and not a refused method)
 					ic := NewAccessControlInterceptor(logger, nil, allowedList)
+					// the same interceptor has served an earlier request of this method that named no namespace at all
+					_, _ = ic.Intercept(context.Background(), vwNew(root.full), &grpc.UnaryServerInfo{FullMethod: root.method},
+						func(ctx context.Context, req any) (any, error) { return nil, nil })
 					reached := false
 					_, ierr := ic.Intercept(context.Background(), proto.Clone(msg), &grpc.UnaryServerInfo{FullMethod: root.method},
 						func(ctx context.Context, req any) (any, error) { reached = true; return nil, nil })
